@@ -1,5 +1,6 @@
 """Seeded, structured op-script generators, one family per property (DESIGN.md §6.1).
 Every random choice comes from the `random.Random` handed in; the script text is the replay."""
+import os
 import random
 
 U64 = 2 ** 64 - 1
@@ -505,7 +506,7 @@ def gen_C15(rng, tier):
 def gen_C07(rng, tier):
     out = gen_C15(rng, tier)
     out = [(n, s.replace("files\n", "files\nread_all s=U e=U\n")) for n, s in out]
-    return out
+    return assets_battery(tier) + out
 
 
 def torn_tail_battery(rng):
@@ -1346,6 +1347,33 @@ def gen_C16(rng, tier):
                 h.reopen()
         if marker_free(h.p, h.ts):
             out.append(("audit", h.script()))
+    return out
+
+
+def assets_battery(tier):
+    """C07, reverse direction: files written by earlier releases (the repository's own assets) are
+    planted byte for byte; the specification decodes them with its independent reference decoder and
+    the library has to read back exactly that, with the shipped index and with the index rebuilt,
+    and has to be able to continue them"""
+    import glob
+    out = []
+    files = sorted(f for f in glob.glob("/repo/assets/*/*.byteseries") if "_None_" not in f)
+    for f in files:
+        data = open(f, "rb").read()
+        if len(data) > 200000 and tier == "quick":
+            variants = ["shipped"]
+        else:
+            variants = ["shipped", "noindex"]
+        ixf = f + "_index"
+        for v in variants:
+            ops = ["put data " + hexs(data)]
+            if v == "shipped" and os.path.exists(ixf):
+                ops.append("put index " + hexs(open(ixf, "rb").read()))
+            ops += ["open p=any hdr=any caches=- cb=none ext=0", "len", "range", "payload_size", "is_empty",
+                    "read_all s=U e=U", "read_first_n n=7 s=U e=U", "last_line", "n_lines s=U e=U",
+                    "read_n n=50 s=U e=U", "close",
+                    "open p=any hdr=any caches=- cb=none ext=0", "len", "read_first_n n=3 s=U e=U", "close"]
+            out.append((f"asset-{os.path.basename(f)}-{v}", "\n".join(ops) + "\n"))
     return out
 
 
